@@ -4,14 +4,26 @@ COMMON_TRUSTED = [
     'structural induction over datatype trees (container proofs use only the interface contract of their members)',
     'contracts of external callees (json, base64, socket, threading, mlzlog) are assumed',
 ]
+DT_BOUNDED = lambda prop: dict(name=f'datatype catalogue ({prop})', script='bounded/dt_bounded.py', args={'prop': prop}, timeout=600)
 
 PROPS = {
     'C01': dict(
         contract_files=['contracts/datatypes.py'],
         level='proof',
         trusted_base=COMMON_TRUSTED + ['Enum.__getitem__ view contract (name<->code bijection), validated by the bounded tier'],
-        uncovered=['IEEE-754 rounding (floats are reals + inf/nan tags)',
-                   'values outside the stated value universe (arbitrary user objects with overloaded operators)'],
-        explanation='',
+        uncovered=['IEEE-754 rounding (floats are reals + inf/nan tags; only the int->float conversion of `int +/- float` rounds)',
+                   'values outside the stated value universe (sets, arbitrary user objects with overloaded operators)',
+                   'StructOf.check_type/__call__/validate/import_value and ScaledInteger.validate: bounded stand-in only '
+                   '(dict-accumulating loops / mixed integer-real nonlinear arithmetic exceed the solver budget)'],
+        bounded=[DT_BOUNDED('C01')],
+    ),
+    'C02': dict(
+        contract_files=['contracts/datatypes.py'],
+        level='proof',
+        trusted_base=COMMON_TRUSTED + ['codec axiom X1 (base64 decode(encode(b)) == b, encode output is valid base64), validated by the bounded tier',
+                                       'json.dumps/loads round trip of NaN-free values (X2) is assumed'],
+        uncovered=['text forms (to_string/from_string/format_value use ast.literal_eval, repr, %-formatting): bounded stand-in only',
+                   'StructOf.export_value/import_value: bounded stand-in only'],
+        bounded=[DT_BOUNDED('C02')],
     ),
 }
